@@ -426,6 +426,46 @@ def run(ctx):
                     if not okk:
                         seen.setdefault("%s|atom-count|%s" % (e, name_.split("(")[0]), ("md.%s on a .%s file of %d atoms (%s cell): %s" % (name_, e, na_, "with" if cell_ else "without", desc_), dict(ext=e, n_atoms=na_, cell=cell_, call=name_)))
                         break
+    # ---- files of tens of megabytes (3000 atoms x 600 frames; readers that work through a large file in blocks), the frame number written
+    # into the coordinates: strided loads and chunked iteration against the frame numbers a slice of the whole file has
+    n_big, f_big = 3000, (600 if ctx.quick else 1500)
+    Xb = np.zeros((f_big, n_big, 3), dtype=np.float32)
+    Xb[:, :, 0] = np.arange(f_big)[:, None]
+    Xb[:, :, 1] = (np.arange(n_big) % 97)[None, :] * 0.01
+    topb = md.Topology(); chb = topb.add_chain(); rb = topb.add_residue("LIG", chb)
+    for _ in range(n_big):
+        topb.add_atom("C", md.element.carbon, rb)
+    tb = md.Trajectory(Xb, topb, time=np.arange(f_big, dtype=np.float32), unitcell_lengths=np.tile([[40.0, 40.0, 40.0]], (f_big, 1)) + np.arange(f_big)[:, None] * 0.001, unitcell_angles=np.tile([[90.0, 90.0, 90.0]], (f_big, 1)))
+    for e in (("nc", "h5") if ctx.quick else ("nc", "h5", "dcd", "xtc", "trr")):
+        pb = os.path.join(ctx.scratch, "big." + e)
+        try:
+            tb.save(pb)
+            kw = {} if e == "h5" else dict(top=topb)
+            for name_, fn_, want_ in (("load(stride=3)", lambda: md.load(pb, stride=3, **kw), np.arange(f_big)[::3]),
+                                      ("load(stride=7, atom_indices=[0, 5, 2999])", lambda: md.load(pb, stride=7, atom_indices=[0, 5, 2999], **kw), np.arange(f_big)[::7]),
+                                      ("iterload(chunk=250, stride=4, skip=3)", lambda: md.join(bounded(md.iterload(pb, chunk=250, stride=4, skip=3, **kw))), np.arange(f_big)[3::4]),
+                                      ("iterload(chunk=500, stride=5)", lambda: md.join(bounded(md.iterload(pb, chunk=500, stride=5, **kw))), np.arange(f_big)[::5])):
+                if e == "trr" and "atom_indices" in name_:
+                    continue    # the recorded heap overflow of trr.pyx (stride > 1 with atom_indices): not provoked here
+                ctx.case(None, ("big-file", e, name_)); ctx.count("partial loads of files of tens of megabytes")
+                try:
+                    got_ = fn_()
+                except NonTerminating:
+                    continue
+                ids_ = np.rint(got_.xyz[:, 0, 0]).astype(int)
+                tids_ = np.rint(got_.time).astype(int)
+                cids_ = np.rint((got_.unitcell_lengths[:, 0] - 40.0) * 1000).astype(int)
+                if not (np.array_equal(ids_, want_) and np.array_equal(tids_, want_) and np.array_equal(cids_, want_)):
+                    w_ = [i for i in range(min(len(ids_), len(want_))) if ids_[i] != want_[i]]
+                    seen.setdefault("%s|big-file|%s" % (e, name_.split("(")[0]), ("md.%s on a .%s file of %d atoms x %d frames gives %d frames%s; the slice of the whole file has %d" % (
+                        name_, e, n_big, f_big, len(ids_), (", position %d holds frame %d instead of %d" % (w_[0], ids_[w_[0]], want_[w_[0]])) if w_ else "", len(want_)), dict(ext=e, call=name_, n_atoms=n_big, n_frames=f_big)))
+                    break
+        except Exception as ex:  # noqa: BLE001
+            seen.setdefault("%s|big-file|raises" % e, ("partial loads of a .%s file of %d atoms x %d frames raised %s: %s" % (e, n_big, f_big, type(ex).__name__, str(ex)[:100]), dict(ext=e)))
+        finally:
+            if os.path.exists(pb):
+                os.remove(pb)
+    del Xb, tb
     for key, (what, rp) in seen.items():
         ctx.violation(key, what, rp)
 
